@@ -211,22 +211,29 @@ def insert (s : Store) (parent : Nat) (pos : Int) (node : Nat) (byName : Bool) :
 
 /-! ### node_unlink.c -/
 
+/-- `if ((next = curr->next)) next->prev = curr->prev;` -/
+def unlinkNext (s : Store) (cn : Node) : Res Store :=
+  match cn.next with
+  | some n => s.modify n fun x => { x with prev := cn.prev }
+  | none => .ok s
+
+/-- `if (curr->prev) curr->prev->next = next; else if (curr->parent) curr->parent->children = next;` -/
+def unlinkPrev (s : Store) (cn : Node) (next : Option Nat) : Res Store :=
+  match cn.prev with
+  | some p => s.modify p fun x => { x with next := next }
+  | none =>
+    match cn.parent with
+    | some p => s.modify p fun x => { x with children := next }
+    | none => .ok s
+
 /-- `mpt_node_unlink(curr)`: store and returned `next` pointer -/
 def unlink (s : Store) (curr : Nat) : Res (Store × Option Nat) := do
   let cn ← s.get curr
-  let next := cn.next
-  let s1 ← match next with
-    | some n => s.modify n fun x => { x with prev := cn.prev }
-    | none => pure s
+  let s1 ← unlinkNext s cn
   let cn1 ← s1.get curr
-  let s2 ← match cn1.prev with
-    | some p => s1.modify p fun x => { x with next := next }
-    | none =>
-      match cn1.parent with
-      | some p => s1.modify p fun x => { x with children := next }
-      | none => pure s1
+  let s2 ← unlinkPrev s1 cn1 cn.next
   let s3 ← s2.modify curr fun x => { x with parent := none, next := none, prev := none }
-  pure (s3, next)
+  pure (s3, cn.next)
 
 /-! ### node_clear.c / node_destroy.c -/
 
